@@ -1,24 +1,40 @@
 /-
   Props/C07.lean — C07 "snake removal is sound for rigid diagrams".
 
-  PARTIAL.  The code's yielded trace is checked on every run against the step relation `sstep`
+  PARTIAL (only the termination of the final `monoidal.normalize` is missing).
+  The code's yielded trace is checked on every run against the step relation `sstep`
   (one legal interchange | deletion of an adjacent cap/cup pair joined straight and forming a
-  snake equation | one `normalize` redex step); the theorems below are about every trace that
-  relation accepts, so they transfer to whatever strategy the code follows.
-  Proved: every diagram of an accepted trace is well-typed, has the input's dom/cod, and denotes
-  the input's morphism under every rigid functor (monoidal functor + snake equations for the
-  images of cups/caps) into every partial strict monoidal algebra; only pairs satisfying a snake
+  snake equation | one `normalize` redex step); the soundness theorems below are about every trace
+  that relation accepts, so they transfer to whatever strategy the code follows.
+  Proved for every accepted trace: every diagram is well-typed, has the input's dom/cod, and
+  denotes the input's morphism under every rigid functor (monoidal functor + snake equations for
+  the images of cups/caps) into every partial strict monoidal algebra; only pairs satisfying a snake
   equation are removed by a yank step (`yank_step_is_snake`); `find_snake` is complete over all
-  caps and both legs (so when the first loop stops no yankable pair is left); `follow_wire` returns
-  the consumer of the wire it follows (`follow_wire_spec`, against independent producer labels).
-  NOT proved (kept as `Prop`s no theorem claims; exercised by the functional comparison of the
-  code's trace with the model's transcription on every run):
-    * `unsnake_indices_invariant` — the model's transcription of `unsnake`, with its index
-      re-numbering over a whole obstruction list, itself yields an accepted trace;
-    * termination (inherits C06's gap for the final `normalize`).
+  caps and both legs; `follow_wire` returns the consumer of the wire it follows
+  (`follow_wire_spec`, against independent producer labels).
+  Proved about the model's transcription of the loop (rewriting.py:395-441), for every well-typed
+  diagram whose cups/caps have the shape their constructors enforce:
+    * `unsnake_indices_invariant` — on every result of `find_snake`, the trace `unsnake` yields
+      (with its in-place index re-numbering over the whole obstruction lists) is accepted;
+    * `unsnake_never_raises` / `unsnake_moves_then_yank` — `unsnake` raises nothing (no
+      InterchangerError, IndexError or AxiomError: also not for obstructions wired to the other
+      leg of the cap or to the cup), every yielded diagram but the last is ONE legal interchange
+      of its predecessor, the cap and the cup end up adjacent and the last step is their yank;
+      exactly two boxes disappear;
+    * `snake_loop_total`, `snake_loop_exit`, `snake_loop_no_yankable` — with the fuel the model
+      uses (`len + 1`) the first loop never raises, never runs out of fuel, yields an accepted
+      trace and ends in a well-typed diagram in which no cap leg runs straight into the opposite
+      leg of a matching cup; `snake_removal_is_normalize_after_loop`, `snake_removal_never_raises` —
+      `snakeRemoval` equals the final `normalize` run on the loop's result, and that raises
+      nothing either (a redex can always be interchanged): no exception for any fuel;
+    * bookkeeping without any hypothesis: `move_obstructions_spec`, `remove_pair_length`,
+      `snake_loop_result`.
+  NOT proved (kept as a `Prop` no theorem claims): `snake_removal_terminates` — termination of the
+  monoidal normal form that follows the snake loop on connected diagrams (C06's gap).
 -/
 import Proofs.Snake
 import Proofs.FollowWire
+import Proofs.UnsnakeLoop
 
 namespace DV.C07
 open DV
@@ -70,12 +86,98 @@ theorem follow_wire_spec (d : Diagram) (hd : d.WF) (i j : Nat) (hi : i < d.boxes
         l.left.length ≤ j' ∧ j' < l.left.length + l.box.dom.length) :=
   Diagram.followWire_spec hd i j hi
 
-/-- NOT PROVED. -/
-def unsnake_indices_invariant : Prop :=
-  ∀ (d : Diagram) (y : Yank) (steps : List Diagram), d.WF → d.boxesValid →
-    d.findSnake = some y → d.unsnake y = .ok steps → checkSnakeTrace false d steps 0 = none
+/-- The index invariant of `unsnake` (rewriting.py:404-428): on every result of `find_snake` the
+    trace it yields — obstructions moved one by one with the in-place re-numbering of the pending
+    ones, then the deletion of boxes `cap..cup` — is accepted step by step. -/
+theorem unsnake_indices_invariant (d : Diagram) (y : Yank) (steps : List Diagram) (hd : d.WF)
+    (hv : d.boxesValid) (hf : d.findSnake = some y) (hu : d.unsnake y = .ok steps) :
+    checkSnakeTrace false d steps 0 = none := by
+  obtain ⟨steps', hu', hch, _⟩ := unsnake_ok hd hv hf
+  rw [hu] at hu'; cases hu'
+  exact hch.check false 0
 
-/-- NOT PROVED. -/
+/-- `unsnake` raises nothing on a result of `find_snake`; each yielded diagram but the last is one
+    legal interchange of its predecessor (`IChain`), the last is the yank of an ADJACENT cap/cup
+    pair (`ystep` only deletes positions `k, k+1` with `yankableAt`), and two boxes disappear. -/
+theorem unsnake_moves_then_yank (d : Diagram) (y : Yank) (hd : d.WF) (hv : d.boxesValid)
+    (hf : d.findSnake = some y) :
+    ∃ moves last, d.unsnake y = .ok (moves ++ [last]) ∧ IChain d moves ∧
+      ystep (lastOr d moves) last = true ∧ last.boxes.length + 2 = d.boxes.length :=
+  unsnake_shape hd hv hf
+
+/-- In particular no `InterchangerError` (nor any other exception) comes out of `unsnake`. -/
+theorem unsnake_never_raises (d : Diagram) (y : Yank) (hd : d.WF) (hv : d.boxesValid)
+    (hf : d.findSnake = some y) : ∃ steps, d.unsnake y = .ok steps ∧ steps ≠ [] :=
+  let ⟨moves, last, h, _⟩ := unsnake_shape hd hv hf
+  ⟨moves ++ [last], h, by simp⟩
+
+/-- The first loop of `snake_removal` with the model's fuel: total, accepted, snake-free. -/
+theorem snake_loop_total (left : Bool) (d : Diagram) (hd : d.WF) (hv : d.boxesValid) :
+    ∃ d1 acc, snakeLoop (d.boxes.length + 1) d [] = .ok (d1, acc) ∧
+      checkSnakeTrace left d acc 0 = none ∧ lastOr d acc = d1 ∧ d1.findSnake = none ∧
+      d1.WF ∧ d1.boxesValid ∧ d1.boxes.length ≤ d.boxes.length :=
+  let ⟨d1, steps, h, hch, hla, hn, w, v, hle⟩ :=
+    snakeLoop_spec (d.boxes.length + 1) (acc := []) hd hv (Nat.lt_succ_self _)
+  ⟨d1, steps, by simpa using h, hch.check left 0, hla, hn, w, v, hle⟩
+
+/-- The loop does not stop for lack of fuel: its result contains no snake. -/
+theorem snake_loop_exit (d d1 : Diagram) (acc : List Diagram) (hd : d.WF) (hv : d.boxesValid)
+    (h : snakeLoop (d.boxes.length + 1) d [] = .ok (d1, acc)) : d1.findSnake = none := by
+  obtain ⟨d1', acc', h', _, _, hn, _⟩ := snake_loop_total false d hd hv
+  rw [h] at h'; cases h'; exact hn
+
+/-- "The result contains no cap whose leg runs straight into the opposite leg of a matching cup":
+    after the loop no cap admits a yank on either leg. -/
+theorem snake_loop_no_yankable (d d1 : Diagram) (acc : List Diagram) (hd : d.WF)
+    (hv : d.boxesValid) (h : snakeLoop (d.boxes.length + 1) d [] = .ok (d1, acc)) :
+    ∀ cap b off, cap < d1.boxes.length → d1.boxes[cap]? = some b → d1.offsets[cap]? = some off →
+      b.kind = .cap → tryYank d1 cap b off true = none ∧ tryYank d1 cap b off false = none :=
+  find_snake_complete d1 (snake_loop_exit d d1 acc hd hv h)
+
+/-- Whatever `snake_removal` raises, the final `monoidal.normalize` raises it. -/
+theorem snake_removal_is_normalize_after_loop (d : Diagram) (left : Bool) (fuel : Nat) (hd : d.WF)
+    (hv : d.boxesValid) :
+    ∃ d1 acc, checkSnakeTrace left d acc 0 = none ∧ lastOr d acc = d1 ∧ d1.findSnake = none ∧
+      d1.WF ∧ d.snakeRemoval left fuel = normalizeTrace left fuel d1 acc := by
+  obtain ⟨d1, acc, h, hc, hla, hn, w, _⟩ := snake_loop_total left d hd hv
+  exact ⟨d1, acc, hc, hla, hn, w, by simp [Diagram.snakeRemoval, h]⟩
+
+/-- `rigid.Diagram.normalize()` raises nothing on a well-typed input, for any number of passes
+    allowed to the final loop (when they run out the model returns `fin = false`, never an error).
+    `NotImplementedError` comes from `normal_form`'s revisit cache, not from the generator. -/
+theorem snake_removal_never_raises (d : Diagram) (left : Bool) (fuel : Nat) (hd : d.WF)
+    (hv : d.boxesValid) : ∃ steps fin, d.snakeRemoval left fuel = .ok (steps, fin) := by
+  obtain ⟨d1, acc, _, _, _, w, h⟩ := snake_removal_is_normalize_after_loop d left fuel hd hv
+  obtain ⟨⟨steps, fin⟩, hr⟩ := normalizeTrace_total (left := left) fuel (acc := acc) w
+  exact ⟨steps, fin, by rw [h, hr]⟩
+
+/-! Bookkeeping that needs no invariant. -/
+
+/-- `moveObstructions` only permutes the boxes (so their number is preserved), yields one diagram
+    per obstruction and moves the target index by `dt` each time. -/
+theorem move_obstructions_spec (bump : Nat → Nat → Nat) (dt : Int) (obs : List Nat)
+    (d d1 : Diagram) (t t1 : Int) (ro ro1 : List Nat) (acc acc1 : List Diagram) (hd : d.WF)
+    (h : moveObstructions bump dt obs d t ro acc = .ok (d1, t1, ro1, acc1)) :
+    d1.WF ∧ d1.boxes.Perm d.boxes ∧ d1.boxes.length = d.boxes.length ∧
+      t1 = t + dt * obs.length ∧ ∃ new, acc1 = acc ++ new ∧ new.length = obs.length :=
+  let ⟨w, _, _, p, l, ht, _, hn⟩ := moveObstructions_spec obs hd h
+  ⟨w, p, l, ht, hn⟩
+
+/-- `removePair` deletes exactly the `cup + 1 - cap` boxes `cap..cup`. -/
+theorem remove_pair_length (d d' : Diagram) (cap cup : Int) (h : d.removePair cap cup = .ok d')
+    (h0 : 0 ≤ cap) (h1 : cap ≤ cup) (h2 : cup < (d.boxes.length : Int)) :
+    (d'.boxes.length : Int) + (cup + 1 - cap) = d.boxes.length :=
+  Diagram.removePair_length h h0 h1 h2
+
+/-- For any fuel and any input: the accumulated trace only grows, ends in the returned diagram, and
+    the loop stops either snake-free or after exactly `fuel` rounds. -/
+theorem snake_loop_result (fuel : Nat) (d d1 : Diagram) (acc acc1 : List Diagram)
+    (h : snakeLoop fuel d acc = .ok (d1, acc1)) :
+    ∃ steps, acc1 = acc ++ steps ∧ lastOr d steps = d1 ∧
+      (d1.findSnake = none ∨ SnakeRounds fuel d d1) :=
+  snakeLoop_result fuel h
+
+/-- NOT PROVED: termination of the monoidal normal form that follows (C06's gap). -/
 def snake_removal_terminates : Prop :=
   ∀ (d : Diagram) (left : Bool), d.WF → connected d →
     ∃ fuel steps, d.snakeRemoval left fuel = .ok (steps, true)
@@ -92,5 +194,47 @@ example : (match snake with
         | .error _ => false)
     | .error _ => false) = true := by decide
 example : (match snake with | .ok d => yankableAt d 0 | .error _ => false) = true := by decide
+
+/-! Non-vacuity of the `unsnake` theorems: snakes with obstructions on BOTH sides of the followed
+    wire, interleaved, some of them wired to the other leg of the cap (`g` at offset 2 below the
+    left snake's cap; `f` at offset 0 below the right snake's cap).  The hypotheses `WF`,
+    `boxesValid`, `findSnake = some _` hold and the conclusions are observed. -/
+private def f : Box := { name := "f", dom := [n], cod := [n] }
+private def g : Box := { name := "g", dom := [n], cod := [n] }
+private def leftSnake : Except Err Diagram :=
+  Diagram.mk? [n] [n] [Box.cap n.r n, g, f, g, Box.cup n n.r] [1, 2, 0, 2, 0]
+private def rightSnake : Except Err Diagram :=
+  Diagram.mk? [n] [n] [Box.cap n n.l, g, f, g, f, Box.cup n.l n] [0, 2, 0, 2, 0, 1]
+
+instance (b : Box) : Decidable b.valid := by unfold Box.valid; infer_instance
+instance (d : Diagram) : Decidable d.boxesValid := by unfold Diagram.boxesValid; infer_instance
+
+private def leftD : Diagram := match leftSnake with | .ok d => d | .error _ => Diagram.id []
+private def rightD : Diagram := match rightSnake with | .ok d => d | .error _ => Diagram.id []
+
+example : leftSnake = .ok leftD ∧ leftD.WF ∧ leftD.boxesValid ∧
+    leftD.findSnake = some ⟨4, 0, [2], [1, 3], true⟩ :=
+  ⟨by decide, Diagram.mk?_wf (by decide : leftSnake = .ok leftD), by decide, by decide⟩
+example : rightSnake = .ok rightD ∧ rightD.WF ∧ rightD.boxesValid ∧
+    rightD.findSnake = some ⟨5, 0, [2, 4], [1, 3], false⟩ :=
+  ⟨by decide, Diagram.mk?_wf (by decide : rightSnake = .ok rightD), by decide, by decide⟩
+
+example : (match leftSnake with
+    | .ok d => (match d.unsnake ⟨4, 0, [2], [1, 3], true⟩ with
+        | .ok steps => steps.length == 4 && (checkSnakeTrace false d steps 0).isNone
+            && (lastOr d steps).boxes == [f, g, g] && (lastOr d steps).offsets == [0, 0, 0]
+        | .error _ => false)
+    | .error _ => false) = true := by decide
+
+example : (match rightSnake with
+    | .ok d => d.findSnake == some ⟨5, 0, [2, 4], [1, 3], false⟩ &&
+      (match d.unsnake ⟨5, 0, [2, 4], [1, 3], false⟩ with
+        | .ok steps => steps.length == 5 && (checkSnakeTrace false d steps 0).isNone
+            && (lastOr d steps).boxes == [g, g, f, f] && (lastOr d steps).offsets == [0, 0, 0, 0]
+        | .error _ => false) &&
+      (match snakeLoop (d.boxes.length + 1) d [] with
+        | .ok (d1, acc) => acc.length == 5 && d1.findSnake.isNone
+        | .error _ => false)
+    | .error _ => false) = true := by decide
 
 end DV.C07
